@@ -98,11 +98,11 @@ def fault_jobs(tier, scale=1.0):
             if light[i::nlight]:
                 js.append({"cfg": "rel64", "unit": "c09:unit_faults",
                            "params": dict({"functions": light[i::nlight], "sizes": [16, 40] if q else [1, 16, 17, 40, 100, 300],
-                                           "reps": 3 if q else 10}, **extra)})
+                                           "reps": 3 if q else 40}, **extra)})
         for i in range(nheavy):
             if heavy[i::nheavy]:
                 js.append({"cfg": "rel64", "unit": "c09:unit_faults",
-                           "params": dict({"functions": heavy[i::nheavy], "sizes": [32], "reps": 2 if q else 8}, **extra)})
+                           "params": dict({"functions": heavy[i::nheavy], "sizes": [32], "reps": 2 if q else 24}, **extra)})
     return js
 
 
